@@ -383,4 +383,43 @@ def run(prog: Program, col: Collector, tier: str, refs: Optional[Refs] = None, c
     txt = [norm(n) for n in ast.walk(tf.node) if isinstance(n, ast.If)]
     ok = any("allow_constants" in t for t in txt) and any(isinstance(n, ast.Raise) for i in ast.walk(tf.node) if isinstance(i, ast.If) and "allow_constants" in norm(i.test) for n in i.body)
     col.check(ok, f"{tf.fq}::constants", "array constants captured from the closure are rejected unless allowed", "trace_function no longer rejects captured array constants", tf.loc())
+    # ---------------------------------------------------------------- R18.7
+    col.rule("R18.7", "what the tracer records for an op call determines the computation that was traced", floor=1)
+    _trace_record(prog, col, refs)
     return col
+
+
+def _trace_record(prog: Program, col: Collector, refs: Refs):
+    """In Op.__call__ the traced branch computes `result = fn(*A, **K)` and records (result, <op>, <args>) on the tape.  The
+    program replays <op>(*<args>).  Everything the caller supplied - positional AND keyword arguments - must therefore flow
+    into the record; parameters that only live in `kwargs` (ops.sum(x, axis=0)) are otherwise replaced by the op's defaults."""
+    from ..dataflow import param_deps
+    f = prog.funcs.get("funsor.ops.op::Op.__call__")
+    if f is None:
+        raise AnalysisError("anchor funsor.ops.op::Op.__call__ not found")
+    va = f.node.args.vararg.arg if f.node.args.vararg else None
+    kw = f.node.args.kwarg.arg if f.node.args.kwarg else None
+    recs = []
+    for n in walk_no_nested(f.node):
+        if isinstance(n, ast.Call) and isinstance(n.func, ast.Attribute) and n.func.attr in ("setdefault", "__setitem__", "append") and n.args \
+                and isinstance(n.args[-1], ast.Tuple) and len(n.args[-1].elts) == 3:
+            recs.append(n)
+        if isinstance(n, ast.Assign) and isinstance(n.targets[0], ast.Subscript) and isinstance(n.value, ast.Tuple) and len(n.value.elts) == 3:
+            recs.append(n)
+    if not recs or va is None or kw is None:
+        col.unresolved(f"{f.fq}::trace record", "no (result, op, args) record found in Op.__call__", f.loc())
+        return
+    for rec in recs:
+        tup = rec.args[-1] if isinstance(rec, ast.Call) else rec.value
+        st = rec
+        while not isinstance(st, ast.stmt):
+            st = f.module.parent.get(st)
+        deps = set()
+        for e in tup.elts[1:]:
+            deps |= param_deps(f, e, st)
+        construct = f"{f.fq}::{norm(tup)}"
+        missing = [p for p in (va, kw) if p not in deps]
+        col.check(not missing, construct, f"the recorded op and operands depend on both *{va} and **{kw}",
+                  f"the record `{norm(tup)}` does not depend on {' / '.join(('**' if p == kw else '*') + p for p in missing)} of the call: "
+                  f"an op called with keyword parameters (ops.sum(x, axis=0), ops.clamp(x, min=a)) is traced as the default-parametrised op and the program computes something else",
+                  f.loc(rec))
